@@ -68,3 +68,10 @@ func ZZC15Lang() {
 	text := nd.Buf("text")
 	nd.Assert(ignoreRegex.MatchString(text) == zzRefIgnore.MatchString(text), "language(ignore) == reference, all lengths")
 }
+
+// ZZC09Prefix: native confirmation of a witness of the unbounded inclusion query for @ignore (C09a).
+func ZZC09Prefix() {
+	text := nd.Buf("text")
+	p := regexp.MustCompile(`^[\t\n\f\r ]*//[\t\n\f\r ]*@ignore([\t\n\f\r ](?s:.*))?$`)
+	nd.Assert(!ignoreRegex.MatchString(text) || p.MatchString(text), "accepted text has the anchored lowercase @ignore prefix form")
+}
